@@ -140,7 +140,7 @@ Definition parse_date_part (now_year : Z) (chars s : text) : res (option (punit 
            some_part PDayOfYear v rest
     end
   else if c =? 101 then parse_wday len s
-  else (let? rest := remove_part (byte_len chars) s in no_part rest).
+  else (let? rest := remove_part (char_count chars) s in no_part rest).
 
 Definition period_value (tbl : list (text * Z)) (s : text) : option (Z * text) :=
   let fix go (l : list (text * Z)) := match l with [] => None | (e, v) :: tl => if starts_with e s then Some (v, e) else go tl end in go tbl.
@@ -188,13 +188,13 @@ Definition parse_time_part (chars s : text) : res (option (punit * Z) * text) :=
     end
   else if c =? 88 then parse_zone len s true
   else if c =? 120 then parse_zone len s false
-  else (let? rest := remove_part (byte_len chars) s in no_part rest).
+  else (let? rest := remove_part (char_count chars) s in no_part rest).
 
 Definition parse_part (now_year : Z) (chars s : text) : res (option (punit * Z) * text) :=
   let c := first_char chars in
   if is_date_symbol c then parse_date_part now_year chars s
   else if is_time_symbol c then parse_time_part chars s
-  else (let? rest := remove_part (byte_len chars) s in no_part rest).
+  else (let? rest := remove_part (char_count chars) s in no_part rest).
 
 (* remove_literal_part *)
 Definition remove_literal_part (part s : text) : res text :=
